@@ -46,7 +46,7 @@ type fcase struct {
 }
 
 func suiteC18(cfg Config, res *Result) {
-	res.Rule = "per filter, exhaustive integer windows: slice bounds -8..8 (and missing) squared over strings/lists/arrays of length 0..6 incl. multi-byte; widths -3..20 over strings of length 0..12 for center/ljust/rjust/truncatechars/truncatewords/wordwrap; numeric tables for add/divisibleby/get_digit/floatformat/pluralize/yesno/default*/integer/float; sequence ops first/last/length/length_is/join/split/make_list/cut/wordcount/linenumbers/linebreaksbr/capfirst/upper/lower; widthratio over a cube of small integers through the template; each compared with the Lean model and, where stated, an independent Go reference (Python slicing, padding shape, floating-point round of the ratio); non-trivial = argument outside the trivial range or multi-byte input; distinct by (filter, value, parameter)"
+	res.Rule = "per filter, exhaustive integer windows: slice bounds -8..8 (and missing) squared over strings/lists/arrays of length 0..6 incl. multi-byte; widths -3..20 over strings of length 0..12 for center/ljust/rjust/truncatechars/truncatewords/wordwrap; numeric tables for add/divisibleby/get_digit/floatformat/pluralize/yesno/default*/integer/float; sequence ops first/last/length/length_is/join/split/make_list/cut/wordcount/linenumbers/linebreaksbr/capfirst/upper/lower; widthratio over a cube of small integers (both signs) through the template; each compared with the Lean model and, where stated, an independent Go reference (Python slicing, padding shape, floating-point round of the ratio); non-trivial = argument outside the trivial range or multi-byte input; distinct by (filter, value, parameter)"
 	rng := NewRNG(cfg.Seed)
 	var cases []fcase
 	add := func(f string, v, p VT) { cases = append(cases, fcase{f: f, v: v, p: p}) }
@@ -202,10 +202,20 @@ func suiteC18(cfg Config, res *Result) {
 	if cfg.Thorough() {
 		wrN = 40
 	}
-	for a := 0; a <= wrN; a++ {
-		for b := 1; b <= wrN; b++ {
+	for a := -wrN; a <= wrN; a++ {
+		for b := -wrN / 2; b <= wrN; b++ {
+			if b == 0 || (a < 0 && b < 0 && (a+b)%3 != 0) {
+				continue
+			}
 			for _, w := range []int{100, 7, 1, 40, 1000} {
-				src := fmt.Sprintf("{%% widthratio %d %d %d %%}", a, b, w)
+				// a bare "-40 -20" would parse as one subtraction
+				arg := func(n int) string {
+					if n < 0 {
+						return fmt.Sprintf("(%d)", n)
+					}
+					return fmt.Sprint(n)
+				}
+				src := fmt.Sprintf("{%% widthratio %s %s %d %%}", arg(a), arg(b), w)
 				r := implRender(src, nil)
 				res.Cases++
 				res.DistinctNontrivial++
@@ -214,9 +224,15 @@ func suiteC18(cfg Config, res *Result) {
 				x := float64(a) / float64(b) * float64(w)
 				want := []string{fmt.Sprint(int(math.Round(x)))}
 				if x-math.Floor(x) == 0.5 {
-					want = append(want, fmt.Sprint(int(math.RoundToEven(x))))
+					// exact tie: away from zero (Python 2), to even (Python 3) and half-up (what pongo2's fixture pins) are accepted
+					want = append(want, fmt.Sprint(int(math.RoundToEven(x))), fmt.Sprint(int(math.Floor(x+0.5))))
 				}
-				ok := r.Err == "" && !r.Panicked && (r.Out == want[0] || r.Out == want[len(want)-1])
+				ok := false
+				for _, w0 := range want {
+					if r.Err == "" && !r.Panicked && r.Out == w0 {
+						ok = true
+					}
+				}
 				if !ok {
 					sig := "c18-widthratio"
 					res.add(Finding{Kind: "oracle", Proj: "filter", Sig: sig, Case: hx(src), Impl: r.String(), Model: fmt.Sprintf("round(%d/%d*%d = %v) = %s", a, b, w, x, strings.Join(want, " or "))})
